@@ -232,7 +232,7 @@ def history(maxops, k):
 HARNESSES = {
     "history": {"make": history, "witness_every": 13,
                 "jobs": lambda tier: ([{"maxops": 1, "k": 4}, {"maxops": 3, "k": 4}] if tier == "quick" else
-                                      [{"maxops": 1, "k": 5}, {"maxops": 2, "k": 5}, {"maxops": 12, "k": 5}, {"maxops": 1, "k": 6}]),
+                                      [{"maxops": 1, "k": 5}, {"maxops": 2, "k": 5}, {"maxops": 12, "k": 5}]),
                 "clauses": ["C09.a", "C09.b", "C09.d", "C09.e"]},
     "step": {"make": step, "jobs": lambda tier: [{}], "witness_every": 5,
              "clauses": ["C09.a", "C09.b", "C09.c", "C09.d", "C09.e", "C09.f", "C09.g", "C09.h"]},
@@ -250,7 +250,7 @@ META = {
     },
     "files": ["operon_ai/state/telomere.py"],
     "bounds": {"quick": {"step": "one call of any of 9 methods from any state: max_operations 1..4096, error_threshold 1..64, counters <= 2^16, cost/amount 0..8192, 4 limit configurations", "hayflick": "max_operations 1..3, k=max+2 calls after start", "history": "k=4 calls over all 9 methods from the constructor, max_operations 1 and 3"},
-               "thorough": {"step": "as quick", "hayflick": "max_operations in {1,2,3,4,5,8,12}, k<=7", "history": "k=5 (max_operations 1,2,12), k=6 (max_operations 1)"}},
+               "thorough": {"step": "as quick", "hayflick": "max_operations in {1,2,3,4,5,8,12}, k<=7", "history": "k=5 (max_operations 1,2,12); k=6 exceeds 5 minutes on 16 cores: outside (the one-step harness covers every reachable state inductively)"}},
     "outside": ["time passing inside a single call", "on_senescence/on_phase_change callbacks that re-enter the lifecycle", "get_status/get_statistics (read-only)", "reset() is treated as re-initialisation"],
     "float_argument": "F-cmp: length/max <= 0.1 and errors/ops >= 0.5 are single quotients of integers < 2^16 against decimal literals; compared exactly by cross-multiplication",
     "assumptions": ["telomere.datetime replaced by a symbolic clock (non-decreasing integer ms)", "threading.Lock/RLock replaced by SLock/SRLock of the same kind in symbolic mode; real locks + watchdog in replay",
